@@ -288,6 +288,29 @@ pub fn stress_strings(payloads: &[&str]) -> Vec<String> {
             }
         }
     }
+    // dense sweeps of the filler length around 8 KiB, 16 KiB, 32 KiB and 64 KiB for a few payload pairs (staging buffers)
+    for p in payloads.iter().take(3) {
+        for q in payloads.iter().take(3) {
+            for (lo, hi) in [(8176usize, 8200usize), (16376, 16392), (32760, 32776), (65528, 65544)] {
+                for k in lo..=hi {
+                    v.push(format!("{p}{}{q}", "a".repeat(k)));
+                }
+            }
+        }
+    }
+    // characters whose code point has the low byte (or low 16 bits) of an interesting ASCII character
+    for x in [0x20u32, 0x41, 0x5a, 0x61, 0x7a, 0x30, 0x2d, 0x5f, 0x09, 0x0a, 0xa0, 0x00] {
+        for hi in [0x01u32, 0x04, 0x20, 0x4e, 0xa0, 0xff, 0x100, 0x1f6, 0x200] {
+            if let Some(c) = char::from_u32((hi << 8) | x) {
+                for t in [format!(" {c} b"), format!("a  {c} b"), format!("{c} {c}  x"), format!("a{c}"), format!("A{c}a {c}"), format!("\u{a0}{c}\u{a0}{c} z")] {
+                    v.push(t);
+                }
+                if let Some(p) = payloads.first() {
+                    v.push(format!("{p}{c} {p}{c}"));
+                }
+            }
+        }
+    }
     // huge inputs (scratch buffers that are kept between calls), followed in the list by ordinary ones
     for p in payloads.iter().take(3) {
         v.push(format!("{}{p}{}", "x".repeat(35_000), "y".repeat(35_000)));
@@ -331,7 +354,7 @@ pub fn stress_strings(payloads: &[&str]) -> Vec<String> {
     v
 }
 
-pub const PAYLOADS_SPACE: [&str; 10] = [" ", "\u{a0}", "\u{3000}", "\u{2003} ", "  ", " x ", "\u{a8}", "\u{fdfa}", "\u{1680}\u{205f}", "x\u{3000}\u{3000}y "];
+pub const PAYLOADS_SPACE: [&str; 12] = [" ", "\u{a0}", "\u{3000}", "\u{a0} t", "  ", " x ", "\u{3000} w\u{e9}", "\u{2003} ", "\u{a8}", "\u{fdfa}", "\u{1680}\u{205f}", "x\u{3000}\u{3000}y "];
 pub const PAYLOADS_USER: [&str; 22] = [
     "\u{ff41}", "\u{3000}", "Z", "aZb", "A", "\u{1c5}", "\u{130}", "\u{3a3}", "\u{1f88}", "\u{10400}", "\u{ff21}", "\u{ff76}\u{ff9e}", "\u{ffe6}", "e\u{301}", "\u{212b}", "\u{5d0}", "\u{661}", "l\u{b7}l",
     "\u{94d}\u{200d}", "\u{9c7}\u{9be}", "\u{13a0}", "\u{5d0}\u{5b8}",
@@ -477,4 +500,46 @@ pub fn battery(run: &Run, section: &str, all: &[String], f: &(dyn Fn(&str, &mut 
             }
         }
     });
+}
+
+/// pairs of combining marks in the WRONG canonical order (ccc(m1) > ccc(m2) > 0), one mark per combining class, alone,
+/// before and after a separately un-normalised sequence
+pub fn misordered_mark_strings() -> Vec<String> {
+    let d = db();
+    let mut per_class: std::collections::BTreeMap<u8, char> = std::collections::BTreeMap::new();
+    for cp in 0x300u32..0x1f000 {
+        let k = cp as usize;
+        if d.u16.listed[k] && d.u16.ccc[k] > 0 {
+            if let Some(c) = char::from_u32(cp) {
+                per_class.entry(d.u16.ccc[k]).or_insert(c);
+            }
+        }
+    }
+    let marks: Vec<(u8, char)> = per_class.into_iter().collect();
+    let mut v = Vec::new();
+    for (c1, m1) in &marks {
+        for (c2, m2) in &marks {
+            if c1 > c2 {
+                v.push(format!("q{m1}{m2}"));
+                v.push(format!("q{m1}{m2}e\u{301}"));
+                v.push(format!("e\u{301}q{m1}{m2}x"));
+                v.push(format!("\u{a0}q{m1}{m2}\u{212b}"));
+            }
+        }
+    }
+    v
+}
+
+/// multi-megabyte inputs followed by small ones (per-thread scratch buffers with a size policy)
+pub fn multi_megabyte_strings(payloads: &[&str]) -> Vec<String> {
+    let mut v = Vec::new();
+    if let Some(p) = payloads.first() {
+        for mb in [5usize, 17] {
+            v.push(format!("{p}{}", "a".repeat(mb << 20)));
+            v.push(format!("ab{p}c"));
+            v.push(format!("{}{p}", "a".repeat(mb << 20)));
+            v.push(format!("xy{p}"));
+        }
+    }
+    v
 }
